@@ -90,8 +90,11 @@ PBinary(toks, lhs, i, dv) ==
 \* assign(): target validation; right operand at the assignment level =>
 \* a = b = c is a = (b = c).  The compound forms are kept as operators of the
 \* tree (the implementation rewrites a += b to a = a + b, see Sexpr).
+\* (dv "lax-target": without the validation - the tree a parser that does
+\* not validate would build; used to tell a precedence defect from a missing
+\* validation when an ungrammatical text is accepted.)
 PAssign(toks, lhs, i, dv) ==
-  IF ~Assignable(lhs) THEN PFail("InvalidAssignmentTarget", i)
+  IF ~Assignable(lhs) /\ "lax-target" \notin dv THEN PFail("InvalidAssignmentTarget", i)
   ELSE LET r == PExpr(toks, i + 1, PrecAssign, dv)
        IN IF r.ok THEN POk(Bin(toks[i].tag, lhs, r.t), r.i) ELSE r
 
